@@ -9,15 +9,15 @@ import sys, os, json, random, collections, dataclasses
 HERE = os.path.dirname(os.path.abspath(__file__)); sys.path.insert(0, HERE)
 from common import model, build_module, case_hash
 
-NAMES = ["a", "b", "c", "d"]
+NAMES = ["low", "high", "mid", "tag"]      # (more than one letter: a name given as a string must not be read as a collection of characters)
 
 
 @dataclasses.dataclass
 class Obj:
-    a: int = 0
-    b: int = 0
-    c: int = 0
-    d: int = 0
+    low: int = 0
+    high: int = 0
+    mid: int = 0
+    tag: int = 0
 
 
 def gen_case(rnd):
@@ -109,7 +109,7 @@ def gen_class(rnd, i):
         tgt = rnd.choice(deps)
         disc = sorted(rnd.sample(names, rnd.randint(1, min(2, len(names))))) if kind == "discard" else None
         deco = "@validator" if kind == "plain" else f"@validator({tgt!r})" if kind == "field" else \
-            "@validator(discard=[" + ", ".join(map(repr, disc)) + "])"
+            (f"@validator(discard={disc[0]!r})" if len(disc) == 1 and rnd.random() < 0.5 else "@validator(discard=[" + ", ".join(map(repr, disc)) + "])")
         def read(d):
             if not inherit: return f"self.{d}"
             return rnd.choice([f"self.{d}", f"self.get_{d}()", f"self.prop_{d}"])
